@@ -106,3 +106,279 @@ Lemma rel_apply_loop_gen t u r ms pend :
        | AU_Ok ms' => apply_loop upd_member t r ms' pend
        end.
 Proof. rewrite gen_rel_apply_update_ok. apply apply_loop_cons. Qed.
+
+(* ================= wave 4: the loops ================= *)
+From Verif Require Import Base.GenLoop.
+
+Lemma loop_fold_ext {A S R} (f g : S -> A -> lstep S R) :
+  (forall s x, f s x = g s x) -> forall l s, loop_fold f l s = loop_fold g l s.
+Proof.
+  intros H. induction l as [|x l IH]; intro s; [reflexivity|].
+  rewrite !loop_fold_cons, H. destruct (g s x); [apply IH|reflexivity].
+Qed.
+
+(* ---- Way.ApplyUpdatesUpTo / Relation.ApplyUpdatesUpTo: the whole loop ---- *)
+Section ApplyLoop.
+  Context {C : Type}.
+  Variable upd : update -> C -> C.
+  Variable us0 : list update.
+  Variable t : Z.
+
+  Definition apply_body (st : list C * list update) (u : update) : lstep (list C * list update) (ares C) :=
+    let '(cs, na) := st in
+    if t <? u_ts u then LNext (cs, (na ++ [u])%list)
+    else match apply_update upd cs u with
+         | AU_Err e => LRet (AErr e cs us0)
+         | AU_Ok cs' => LNext (cs', na)
+         | AU_Panic _ => LRet APanic
+         end.
+
+  Lemma apply_body_loop : forall us cs na,
+    loop_fold apply_body us (cs, na) =
+    match apply_loop upd t us cs na with
+    | LDone cs' p => LNext (cs', p)
+    | LErr i cs' => LRet (AErr i cs' us0)
+    | LPanic => LRet APanic
+    end.
+  Proof.
+    induction us as [|u r IH]; intros cs na; [reflexivity|].
+    rewrite loop_fold_cons, apply_loop_cons. unfold apply_body at 1.
+    destruct (t <? u_ts u); [apply IH|].
+    destruct (apply_update upd cs u) as [cs'|e|]; [apply IH|reflexivity|reflexivity].
+  Qed.
+End ApplyLoop.
+
+Lemma gen_way_apply_updates_up_to_ok ns us t :
+  gen_way_apply_updates_up_to ns us t = way_apply t ns us.
+Proof.
+  unfold gen_way_apply_updates_up_to, way_apply, apply_updates_up_to. cbv zeta.
+  rewrite (loop_fold_ext _ (apply_body upd_node us t)).
+  2:{ intros [cs na] u. unfold apply_body. rewrite gen_way_apply_update_ok. reflexivity. }
+  rewrite apply_body_loop. destruct (apply_loop upd_node t us ns []); reflexivity.
+Qed.
+
+Lemma gen_rel_apply_updates_up_to_ok ms us t :
+  gen_rel_apply_updates_up_to ms us t = rel_apply t ms us.
+Proof.
+  unfold gen_rel_apply_updates_up_to, rel_apply, apply_updates_up_to. cbv zeta.
+  rewrite (loop_fold_ext _ (apply_body upd_member us t)).
+  2:{ intros [cs na] u. unfold apply_body. rewrite gen_rel_apply_update_ok. reflexivity. }
+  rewrite apply_body_loop. destruct (apply_loop upd_member t us ms []); reflexivity.
+Qed.
+
+(* ---- Way.LineString ---- *)
+Lemma gen_way_line_string_ok ns : gen_way_line_string ns = line_string ns.
+Proof.
+  unfold gen_way_line_string, line_string. cbv zeta.
+  match goal with
+  | |- fold_left ?F ns ?a = _ =>
+      assert (H : forall acc, fold_left F ns acc = (acc ++ map node_point (filter annotated ns))%list)
+  end.
+  { induction ns as [|n r IH]; intro acc; cbn [fold_left filter map].
+    - rewrite app_nil_r. reflexivity.
+    - rewrite IH. cbv beta zeta. unfold annotated at 2.
+      destruct (negb (n_ver n =? 0) || negb (n_lon n =? 0) || negb (n_lat n =? 0));
+        cbn [map]; rewrite <- ?app_assoc; reflexivity. }
+  exact (H []).
+Qed.
+
+(* ---- Way.LineStringAt ---- *)
+Lemma points_of_nodes ns : forall acc,
+  fold_left (fun st v_n => (st ++ [node_point v_n])%list) ns acc = (acc ++ map node_point ns)%list.
+Proof.
+  induction ns as [|n r IH]; intro acc; cbn [fold_left map]; [rewrite app_nil_r; reflexivity|].
+  rewrite IH, <- app_assoc. reflexivity.
+Qed.
+
+(* second loop: the updates *)
+Definition lsat_body (t : Z) (ls : list point) (u : update) : lstep (list point) (option (list point)) :=
+  if t <? u_ts u then LNext ls
+  else if Z.of_nat (length ls) <=? u_index u then LNext ls
+  else set_at ls (u_index u) (fun el => (u_lon u, snd el)) (LRet None) (fun ls1 =>
+       set_at ls1 (u_index u) (fun el => (fst el, u_lat u)) (LRet None) (fun ls2 => LNext ls2)).
+
+Lemma lsat_body_loop t : forall us ls,
+  loop_fold (lsat_body t) us ls =
+  match lsat_loop false t us ls with Some ls' => LNext ls' | None => LRet None end.
+Proof.
+  induction us as [|u r IH]; intro ls; [reflexivity|].
+  rewrite loop_fold_cons. cbn [lsat_loop]. unfold lsat_body at 1.
+  destruct (t <? u_ts u); [apply IH|].
+  destruct (Z.of_nat (length ls) <=? u_index u) eqn:Ehi; [apply IH|].
+  destruct (u_index u <? 0) eqn:Eneg.
+  - unfold set_at at 1. rewrite Eneg. reflexivity.
+  - rewrite set_at_in_range; [|exact Eneg|exact Ehi].
+    rewrite set_at_in_range; [|exact Eneg|rewrite update_nth_length; exact Ehi].
+    rewrite update_nth_twice.
+    rewrite (update_nth_ext _ (fun _ => (u_lon u, u_lat u))); [apply IH|]. intros []. reflexivity.
+Qed.
+
+Lemma lsat_loop_length brk t : forall us ls ls',
+  lsat_loop brk t us ls = Some ls' -> length ls' = length ls.
+Proof.
+  induction us as [|u r IH]; intros ls ls' H; cbn in H; [inversion H; reflexivity|].
+  destruct (t <? u_ts u).
+  - destruct brk; [inversion H; reflexivity|exact (IH _ _ H)].
+  - destruct (Z.of_nat (length ls) <=? u_index u); [exact (IH _ _ H)|].
+    destruct (u_index u <? 0); [discriminate|].
+    apply IH in H. rewrite update_nth_length in H. exact H.
+Qed.
+
+(* third loop: in-place compaction.  L is the list before the loop (also the range operand),
+   cur the list being overwritten, count the write position, i the read position *)
+Definition compact_body (ns : list wnode) (st : Z * list point * Z) (_ : point)
+  : lstep (Z * list point * Z) (option (list point)) :=
+  let '(i, cur, count) := st in
+  match get_at ns i with
+  | Some n =>
+      if (n_ver n =? 0) && (n_lon n =? 0) && (n_lat n =? 0) then LNext (i + 1, cur, count)
+      else match get_at cur i with
+           | Some x => set_at cur count (fun _ => x) (LRet None) (fun cur' => LNext (i + 1, cur', count + 1))
+           | None => LRet None
+           end
+  | None => LRet None
+  end.
+
+Lemma keep_annotated_app ns1 : forall ls1 ns2 ls2,
+  length ns1 = length ls1 ->
+  keep_annotated (ns1 ++ ns2) (ls1 ++ ls2) = (keep_annotated ns1 ls1 ++ keep_annotated ns2 ls2)%list.
+Proof.
+  induction ns1 as [|n r IH]; intros [|p ls1] ns2 ls2 H; cbn in H; try discriminate; [reflexivity|].
+  cbn [app keep_annotated]. rewrite IH by lia. destruct (annotated n); reflexivity.
+Qed.
+
+Lemma keep_annotated_length ns : forall ls, (length (keep_annotated ns ls) <= length ls)%nat.
+Proof.
+  induction ns as [|n r IH]; intros [|p ls]; cbn; try lia.
+  specialize (IH ls). destruct (annotated n); cbn; lia.
+Qed.
+
+Lemma nth_error_update_nth_same {A} (l : list A) (n : nat) (x : A) :
+  (n < length l)%nat -> nth_error (update_nth n (fun _ => x) l) n = Some x.
+Proof.
+  intro H. rewrite nth_error_update_nth, Nat.eqb_refl.
+  destruct (nth_error l n) eqn:E; [reflexivity|]. apply nth_error_None in E. lia.
+Qed.
+
+Lemma firstn_S_nth {A} (l : list A) : forall k x,
+  nth_error l k = Some x -> firstn (S k) l = (firstn k l ++ [x])%list.
+Proof.
+  induction l as [|y l IH]; intros [|k] x H; cbn in H; try discriminate.
+  - inversion H. reflexivity.
+  - cbn [firstn app]. f_equal. exact (IH k x H).
+Qed.
+
+Lemma compact_loop ns L : length ns = length L ->
+  forall rest pre cur,
+    L = (pre ++ rest)%list -> length cur = length L ->
+    let kept := keep_annotated (firstn (length pre) ns) pre in
+    (forall j, (j < length kept)%nat -> nth_error cur j = nth_error kept j) ->
+    (forall j, (length pre <= j)%nat -> nth_error cur j = nth_error L j) ->
+    exists cur',
+      loop_fold (compact_body ns) rest (Z.of_nat (length pre), cur, Z.of_nat (length kept))
+      = LNext (Z.of_nat (length L), cur', Z.of_nat (length (keep_annotated ns L))) /\
+      length cur' = length L /\
+      forall j, (j < length (keep_annotated ns L))%nat -> nth_error cur' j = nth_error (keep_annotated ns L) j.
+Proof.
+  intros Hlen. induction rest as [|p rest IH]; intros pre cur HL Hcl kept Hk Hrest.
+  - rewrite app_nil_r in HL. subst pre. unfold kept in *.
+    rewrite <- Hlen, firstn_all in *. exists cur. repeat split; auto.
+  - assert (Hpre : (length pre < length ns)%nat).
+    { rewrite Hlen, HL, app_length. cbn. lia. }
+    destruct (nth_error ns (length pre)) as [n|] eqn:En; [|apply nth_error_None in En; lia].
+    assert (Hfirst : firstn (length (pre ++ [p])) ns = (firstn (length pre) ns ++ [n])%list).
+    { rewrite app_length. cbn [length]. rewrite Nat.add_1_r. apply firstn_S_nth. exact En. }
+    assert (Hkept' : keep_annotated (firstn (length (pre ++ [p])) ns) (pre ++ [p])
+                     = (kept ++ (if annotated n then [p] else []))%list).
+    { rewrite Hfirst, keep_annotated_app.
+      - cbn. destruct (annotated n); reflexivity.
+      - rewrite firstn_length. lia. }
+    assert (HL' : L = ((pre ++ [p]) ++ rest)%list) by (rewrite <- app_assoc; exact HL).
+    assert (Hlen1 : (Z.of_nat (length pre) + 1)%Z = Z.of_nat (length (pre ++ [p])))
+      by (rewrite app_length; cbn; lia).
+    rewrite loop_fold_cons. unfold compact_body at 1. rewrite get_at_nat, En.
+    assert (Hann : ((n_ver n =? 0) && (n_lon n =? 0) && (n_lat n =? 0)) = negb (annotated n)).
+    { unfold annotated. destruct (n_ver n =? 0), (n_lon n =? 0), (n_lat n =? 0); reflexivity. }
+    rewrite Hann. destruct (annotated n) eqn:Ea; cbn [negb].
+    + (* annotated: copy L[i] to cur[count] *)
+      rewrite get_at_nat, (Hrest _ (Nat.le_refl _)).
+      assert (Hp : nth_error L (length pre) = Some p).
+      { rewrite HL, nth_error_app2, Nat.sub_diag by lia. reflexivity. }
+      rewrite Hp.
+      assert (Hkl : (length kept <= length pre)%nat).
+      { unfold kept. etransitivity; [apply keep_annotated_length|lia]. }
+      rewrite set_at_in_range.
+      2:{ lia. }
+      2:{ apply Z.leb_gt. rewrite Hcl, HL, app_length. cbn. lia. }
+      rewrite Nat2Z.id, Hlen1.
+      replace (Z.of_nat (length kept) + 1)%Z with (Z.of_nat (length (kept ++ [p])))
+        by (rewrite app_length; cbn; lia).
+      rewrite <- Hkept'.
+      apply (IH (pre ++ [p])%list); [exact HL'|rewrite update_nth_length; exact Hcl| |].
+      * intros j Hj. rewrite Hkept' in *. rewrite app_length in Hj. cbn in Hj.
+        rewrite nth_error_update_nth.
+        destruct (Nat.eqb j (length kept)) eqn:Ej.
+        -- apply Nat.eqb_eq in Ej. subst j.
+           rewrite nth_error_app2, Nat.sub_diag by lia. cbn.
+           destruct (nth_error cur (length kept)) eqn:Ec; [reflexivity|].
+           apply nth_error_None in Ec. rewrite Hcl, HL, app_length in Ec. cbn in Ec. lia.
+        -- apply Nat.eqb_neq in Ej. rewrite nth_error_app1 by lia. apply Hk. lia.
+      * intros j Hj. rewrite app_length in Hj. cbn in Hj. rewrite nth_error_update_nth.
+        replace (Nat.eqb j (length kept)) with false by (symmetry; apply Nat.eqb_neq; lia).
+        apply Hrest. lia.
+    + (* not annotated: skip *)
+      rewrite Hlen1.
+      replace (length kept) with (length (keep_annotated (firstn (length (pre ++ [p])) ns) (pre ++ [p])))
+        by (rewrite Hkept', app_nil_r; reflexivity).
+      apply (IH (pre ++ [p])%list); [exact HL'|exact Hcl| |].
+      * rewrite Hkept', app_nil_r. exact Hk.
+      * intros j Hj. rewrite app_length in Hj. cbn in Hj. apply Hrest. lia.
+Qed.
+
+Lemma firstn_of_prefix {A} (l k : list A) :
+  (length k <= length l)%nat ->
+  (forall j, (j < length k)%nat -> nth_error l j = nth_error k j) ->
+  firstn (length k) l = k.
+Proof.
+  revert l. induction k as [|x k IH]; intros l Hl H; [reflexivity|].
+  destruct l as [|y l]; cbn in Hl; [lia|].
+  pose proof (H 0%nat ltac:(cbn; lia)) as H0. cbn in H0. inversion H0; subst y.
+  cbn. f_equal. apply IH; [lia|]. intros j Hj. exact (H (S j) ltac:(cbn; lia)).
+Qed.
+
+Lemma gen_way_line_string_at_ok ns us t :
+  gen_way_line_string_at ns us t = line_string_at t ns us.
+Proof.
+  unfold gen_way_line_string_at, line_string_at, line_string_at_gen. cbv zeta.
+  rewrite (points_of_nodes ns []). cbn [app].
+  rewrite (loop_fold_ext _ (lsat_body t)).
+  2:{ intros ls u. reflexivity. }
+  rewrite lsat_body_loop.
+  destruct (lsat_loop false t us (map node_point ns)) as [L|] eqn:EL; [|reflexivity].
+  cbv beta iota zeta.
+  pose proof (lsat_loop_length _ _ _ _ _ EL) as HlenL. rewrite map_length in HlenL.
+  rewrite (loop_fold_ext _ (compact_body ns)).
+  2:{ intros [[i cur] count] x. reflexivity. }
+  destruct (compact_loop ns L (eq_sym HlenL) L [] L eq_refl eq_refl) as (cur' & Hloop & Hcl & Hk).
+  - intros j Hj. cbn in Hj. lia.
+  - intros j _. reflexivity.
+  - cbn [length firstn keep_annotated] in Hloop. change (Z.of_nat 0) with 0%Z in Hloop.
+    match goal with
+    | |- match ?X with _ => _ end = _ =>
+        replace X with (@LNext (Z * list point * Z) (option (list point))
+                               (Z.of_nat (length L), cur', Z.of_nat (length (keep_annotated ns L))))
+          by (symmetry; exact Hloop)
+    end.
+    f_equal. rewrite Nat2Z.id. apply firstn_of_prefix; [|exact Hk].
+    pose proof (keep_annotated_length ns L) as Hkl. unfold point in *. lia.
+Qed.
+
+(* ---- the sorts are sort.Sort on the two Less types ---- *)
+From Coq Require Import String.
+(* SortByIndex is sort.Sort(updatesSortIndex(us)), SortByTimestamp is sort.Sort(updatesSortTS(us)) *)
+Definition sort_calls_expected : list string * list string :=
+  (["sort.Sort"; "updatesSortIndex"], ["sort.Sort"; "updatesSortTS"])%string.
+
+Lemma gen_sort_calls :
+  (calls_Updates_SortByIndex, calls_Updates_SortByTimestamp) = sort_calls_expected.
+Proof. reflexivity. Qed.
